@@ -18,7 +18,33 @@ def bins(variant):
 def refbins():
     if "ref" not in _bins:
         _bins["ref"] = workers.ensure_ref()
+        _selftest_refs(_bins["ref"])
     return _bins["ref"]
+
+
+class RefDecoderBroken(build.BuildFailed):
+    pass
+
+
+def _selftest_refs(b):
+    """The reference decoders are driven through dlopen with hand-declared ABI: before any verdict depends on them, decode a committed
+    stream and compare with the committed hash (which also equals the SVT encoder's recon of that stream).  A mismatch means the
+    oracle itself is broken on this machine: the check stops as BUILD-FAILED / inconclusive (exit 2), never as a VIOLATION."""
+    st = os.path.join(build.VERIF, "corpus", "selftest.tu")
+    js = os.path.join(build.VERIF, "corpus", "selftest.json")
+    if not (os.path.exists(st) and os.path.exists(js)):
+        return
+    want = json.load(open(js))
+    wd = mkwork("selftest")
+    try:
+        for dec in ("aom", "dav1d"):
+            p = subprocess.run([b["refdec"], dec, st, os.path.join(wd, "s"), "0"], stdout=subprocess.PIPE, stderr=subprocess.PIPE, timeout=120)
+            yp = os.path.join(wd, "s.%s.yuv16" % dec)
+            got = hashlib.sha256(open(yp, "rb").read()).hexdigest() if os.path.exists(yp) else None
+            if got != want["sha256"]:
+                raise RefDecoderBroken("reference decoder self-test failed for %s (exit %s): the dlopen ABI assumptions do not hold here" % (dec, p.returncode))
+    finally:
+        shutil.rmtree(wd, ignore_errors=True)
 
 
 def mkwork(prefix="vf"):
